@@ -15,7 +15,7 @@
    The signature scheme (ed25519) is a parameter: Section variables, constrained only in the
    theorems (Sign/Proofs.v, record ideal_sig).  Objects with duplicate keys are outside the
    domain (Go maps keep the last duplicate; assoc_last mirrors that for lookups only). *)
-From Verif Require Import Lib.Bytes Json.Ast Json.Parse Json.Print Sign.Base64.
+From Verif Require Import Lib.Bytes Json.Ast Json.Parse Json.Print Sign.Base64 Fed.Utf8C13.
 Open Scope N_scope.
 
 Definition k_signatures : bytes := bs "signatures".
@@ -99,6 +99,23 @@ Definition strip_members (m : list (bytes * json)) : list (bytes * json) :=
 Definition strip (v : json) : json :=
   match v with JObj m => JObj (strip_members m) | _ => v end.
 
+(* Go map semantics for the top-level members (VerifyJSON decodes into a map and marshals the
+   map again): of several members with the same name only the last one survives.  Finding F69:
+   SignJSON signs the text with all of them. *)
+Fixpoint dedup_last {A} (m : list (bytes * A)) : list (bytes * A) :=
+  match m with
+  | [] => []
+  | (k, v) :: m' =>
+      match assoc_last k m' with
+      | Some _ => dedup_last m'
+      | None => (k, v) :: dedup_last m'
+      end
+  end.
+
+(* the part of the value VerifyJSON checks the signature against *)
+Definition verified_part (v : json) : json :=
+  match v with JObj m => JObj (dedup_last (strip_members m)) | _ => v end.
+
 (* what json.Unmarshal into a Go map accepts: an object, or null (leaves the map nil) *)
 Definition top_members (v : json) : option (list (bytes * json)) :=
   match v with
@@ -150,14 +167,16 @@ Section Scheme.
                 match lookup_sig name kid sm with
                 | None => false
                 | Some s =>
-                    sig_size_ok s && pk_size_ok p && verify p (canon_print (strip v)) s
+                    sig_size_ok s && pk_size_ok p && verify p (canon_print (verified_part v)) s
                 end
             end
         end
     | _ => false
     end.
 
+  (* SignJSON refuses a text that is not UTF-8 (repair F70) *)
   Definition sign_json (name kid : bytes) (k : key) (t : bytes) : option bytes :=
+    if negb (utf8_valid t) then None else
     match parse_json t with
     | Some v => option_map canon_print (sign_value name kid k v)
     | None => None
